@@ -176,8 +176,18 @@ func BuildProject(cfg Config) *types.Project {
 		for _, d := range cfg.Deps[i-1] {
 			s.DependsOn[Name(d)] = types.ServiceDependency{Condition: types.ServiceConditionStarted, Required: true}
 		}
+		// an optional dependency on a service that is not there (absent, or disabled by a profile) is no edge of the
+		// graph; it must still be in the project after the walk
+		if i%2 == 1 {
+			if s.DependsOn == nil {
+				s.DependsOn = types.DependsOnConfig{}
+			}
+			s.DependsOn["ghost"] = types.ServiceDependency{Condition: types.ServiceConditionStarted, Required: false}
+			s.DependsOn["off"] = types.ServiceDependency{Condition: types.ServiceConditionHealthy, Required: false}
+		}
 		p.Services[Name(i)] = s
 	}
+	p.DisabledServices = types.Services{"off": types.ServiceConfig{Name: "off", Image: "img-off", Profiles: []string{"never"}}}
 	return p
 }
 
